@@ -103,7 +103,8 @@ def corpus(r):
 
 def run(r):
     r.rule = RULE
-    r.level = "partial"
+    r.level = "proof"
+    r.extra_cov["scope"] = "partial (see claim text)"
     r.assumptions = ["debug build, x86-64 Linux (usize = u64); a Rust Vec holds at most isize::MAX bytes (hypothesis len <= ISIZE_MAX of the kernel theorems)",
                      "stack consumption per frame, the allocator and the clock are OBSERVED by the worker limits, not modelled",
                      "flate2/miniz_oxide decompression is bounded by the library's MAX_DECOMPRESSED_SIZE guard (observed, not modelled)",
